@@ -8,7 +8,7 @@ import warnings
 from spice_ev.costs import DEFAULT_COST_CALCULATION, calculate_costs
 from spice_ev.scenario import Scenario
 from spice_ev.strategy import STRATEGIES
-from spice_ev.util import set_options_from_config
+from spice_ev.util import sanitize, set_options_from_config
 
 
 def simulate(args):
@@ -70,6 +70,12 @@ def simulate(args):
             pv = sum([pv.nominal_power for pv in s.components.photovoltaics.values()
                       if pv.parent == gcID])
             timeseries = vars(s).get(f"{gcID}_timeseries")
+            results_json = args.get("save_results")
+            if results_json and len(s.components.grid_connectors) > 1:
+                # several grid connectors: one results file per GC (named like in the report)
+                results_json = Path(results_json)
+                results_json = results_json.parent / (
+                    f"{results_json.stem}_{sanitize(gcID)}{results_json.suffix}")
 
             # original fixed load
             power_fix_load_list = timeseries.get("fixed load [kW]", [0] * s.n_intervals)
@@ -101,7 +107,7 @@ def simulate(args):
                 window_signal_list=timeseries.get("window signal [-]"),
                 price_sheet_path=args.get("cost_parameters_file"),
                 grid_operator=gc.grid_operator,
-                results_json=args.get("save_results"),
+                results_json=results_json,
                 power_pv_nominal=pv,
                 power_schedule_list=timeseries.get("schedule [kW]"),
             )
